@@ -1,19 +1,28 @@
 #!/bin/bash
 # Re-runs every stored seeded change (must be reported: exit 1) and every stored
 # behaviour-preserving change (must be quiet: exit 0) against the current checks.
-# usage: tools/regress_seeded.sh [quick|thorough]   (takes a while; output: one line per change)
+# usage: tools/regress_seeded.sh [quick|thorough]   (takes hours; one line per change)
+#   REGRESS_JOBS=n runs n changes at a time (each check still uses every core: on a loaded machine a
+#   unit-bound quick tier may reach its time cap first; re-run a MISSED line alone before believing it)
+#   REGRESS_ONLY=<glob> restricts the run, e.g. 'C06-*' or 'refactorings/C1*'
 cd "$(dirname "$0")/.."
-TIER="${1:-quick}"
-fail=0
-for d in seeded/C*-w*-m*; do
-  if [ "$(jq -r '.no_longer_breaks_property // false' "$d/meta.json")" = "true" ]; then echo "n/a      $d (does not break the property on HEAD any more: see its meta.json)"; continue; fi
+export TIER="${1:-quick}"
+one() {
+  d="$1"
   ids=$(jq -r '.checks_run[0]' "$d/meta.json" | awk '{print $3}')
-  out=$(tools/try_seeded.sh "$d/patch.diff" "$ids" "$TIER" 2>&1); rc=$?
-  if [ $rc -eq 1 ]; then echo "caught   $d ($ids)"; elif [ $rc -eq 3 ]; then echo "n/a      $d (no longer applies: a later repair rewrote the lines it changes)"; else echo "MISSED   $d ($ids) rc=$rc"; fail=1; fi
-done
-for d in seeded/refactorings/*; do
-  ids=$(jq -r '.checks_run[0]' "$d/meta.json" | awk '{print $3}')
-  out=$(tools/try_seeded.sh "$d/patch.diff" "$ids" "$TIER" 2>&1); rc=$?
-  if [ $rc -eq 0 ]; then echo "quiet    $d ($ids)"; elif [ $rc -eq 3 ]; then echo "n/a      $d (no longer applies: a later repair rewrote the lines it changes)"; else echo "ALARM    $d ($ids) rc=$rc"; echo "$out" | grep -E "^violation|TROUBLE" | head -3; fail=1; fi
-done
-exit $fail
+  case "$d" in
+  seeded/refactorings/*)
+    out=$(tools/try_seeded.sh "$d/patch.diff" "$ids" "$TIER" 2>&1); rc=$?
+    if [ $rc -eq 0 ]; then echo "quiet    $d ($ids)"; elif [ $rc -eq 3 ]; then echo "n/a      $d (no longer applies: a later repair rewrote the lines it changes)"; else echo "ALARM    $d ($ids) rc=$rc $(echo "$out" | grep -E "^violation|TROUBLE" | head -3 | tr '\n' ' ' | cut -c1-400)"; fi ;;
+  *)
+    if [ "$(jq -r '.no_longer_breaks_property // false' "$d/meta.json")" = "true" ]; then echo "n/a      $d (does not break the property on HEAD any more: see its meta.json)"; return; fi
+    out=$(tools/try_seeded.sh "$d/patch.diff" "$ids" "$TIER" 2>&1); rc=$?
+    if [ $rc -eq 1 ]; then echo "caught   $d ($ids)"; elif [ $rc -eq 3 ]; then echo "n/a      $d (no longer applies: a later repair rewrote the lines it changes)"; else echo "MISSED   $d ($ids) rc=$rc"; fi ;;
+  esac
+}
+export -f one
+ls -d seeded/C*-w*-m* seeded/refactorings/* | { if [ -n "${REGRESS_ONLY:-}" ]; then grep -E "seeded/($(echo "$REGRESS_ONLY" | sed 's/\*/.*/g'))"; else cat; fi; } |
+  xargs -P "${REGRESS_JOBS:-1}" -I{} bash -c 'one {}' | tee /tmp/regress-$$.out
+if grep -qE "^(MISSED|ALARM)" /tmp/regress-$$.out; then rm -f /tmp/regress-$$.out; exit 1; fi
+rm -f /tmp/regress-$$.out
+exit 0
